@@ -83,6 +83,17 @@ theorem applyInfix_noof {M : Machine} {op : Str} {l r : Value} {e : Err} (h : ap
   · exact binop_noof h
   · cases h; simp [NotOof]
 
+theorem buildHash_noof : ∀ (fuel : Nat) (xs : List Value) (acc : List HPair) (e : Err),
+    buildHash fuel xs acc = .error e → NotOof e
+  | 0, _, _, _, h => by simp [buildHash] at h
+  | _ + 1, [], _, _, h => by simp [buildHash] at h
+  | _ + 1, [_], _, _, h => by simp [buildHash] at h
+  | n + 1, v :: k :: more, acc, e, h => by
+    simp only [buildHash] at h
+    split at h
+    · split at h <;> (cases h; simp [NotOof])
+    · exact buildHash_noof n _ _ _ h
+
 mutual
   theorem evalE_noof (M : Machine) (obj : HostVal) (env : Env) : ∀ (x : Expr) (out : Str) (e : Err) (o : Str),
       evalE M obj env x out = (.error e, o) → NotOof e
@@ -155,7 +166,17 @@ mutual
           split at h
           · exact evalE_noof M obj env t o1 e o h
           · exact evalE_noof M obj env f o1 e o h
-    | .hashLit _, out, e, o, h => by simp only [evalE, Prod.mk.injEq, Except.error.injEq] at h; rw [← h.1]; simp [NotOof]
+    | .hashLit ps, out, e, o, h => by
+      simp only [evalE] at h
+      cases hl : evalPs M obj env ps out with
+      | mk res o1 =>
+        cases res with
+        | error x => simp only [hl, Prod.mk.injEq, Except.error.injEq] at h; rw [← h.1]; exact evalPs_noof M obj env ps out x o1 hl
+        | ok kvs =>
+          simp only [hl] at h
+          cases hb : buildHash (kvs.length + 1) kvs.reverse [] with
+          | ok hp => simp [hb] at h
+          | error x => simp only [hb, Prod.mk.injEq, Except.error.injEq] at h; rw [← h.1]; exact buildHash_noof _ _ _ _ hb
     | .postfix _ _, out, e, o, h => by simp only [evalE, Prod.mk.injEq, Except.error.injEq] at h; rw [← h.1]; simp [NotOof]
     | .call _ _, out, e, o, h => by simp only [evalE, Prod.mk.injEq, Except.error.injEq] at h; rw [← h.1]; simp [NotOof]
     | .assign _ _, out, e, o, h => by simp only [evalE, Prod.mk.injEq, Except.error.injEq] at h; rw [← h.1]; simp [NotOof]
@@ -165,6 +186,28 @@ mutual
     | .switchE _ _, out, e, o, h => by simp only [evalE, Prod.mk.injEq, Except.error.injEq] at h; rw [← h.1]; simp [NotOof]
     | .funcDef _ _ _, out, e, o, h => by simp only [evalE, Prod.mk.injEq, Except.error.injEq] at h; rw [← h.1]; simp [NotOof]
     | .localE _, out, e, o, h => by simp only [evalE, Prod.mk.injEq, Except.error.injEq] at h; rw [← h.1]; simp [NotOof]
+  theorem evalPs_noof (M : Machine) (obj : HostVal) (env : Env) : ∀ (ps : List Pair) (out : Str) (e : Err) (o : Str),
+      evalPs M obj env ps out = (.error e, o) → NotOof e
+    | [], out, e, o, h => by simp [evalPs] at h
+    | .mk k v :: ps, out, e, o, h => by
+      simp only [evalPs] at h
+      cases hk : evalE M obj env k out with
+      | mk res o1 =>
+        cases res with
+        | error y => simp only [hk, Prod.mk.injEq, Except.error.injEq] at h; rw [← h.1]; exact evalE_noof M obj env k out y o1 hk
+        | ok kv =>
+          simp only [hk] at h
+          cases hv : evalE M obj env v o1 with
+          | mk res2 o2 =>
+            cases res2 with
+            | error y => simp only [hv, Prod.mk.injEq, Except.error.injEq] at h; rw [← h.1]; exact evalE_noof M obj env v o1 y o2 hv
+            | ok vv =>
+              simp only [hv] at h
+              cases hr : evalPs M obj env ps o2 with
+              | mk res3 o3 =>
+                cases res3 with
+                | error y => simp only [hr, Prod.mk.injEq, Except.error.injEq] at h; rw [← h.1]; exact evalPs_noof M obj env ps o2 y o3 hr
+                | ok vs => simp [hr] at h
   theorem evalEs_noof (M : Machine) (obj : HostVal) (env : Env) : ∀ (xs : List Expr) (out : Str) (e : Err) (o : Str),
       evalEs M obj env xs out = (.error e, o) → NotOof e
     | [], out, e, o, h => by simp [evalEs] at h
